@@ -182,6 +182,17 @@ func findInlineNode(file *ast.File, comment *ast.Comment, fset *token.FileSet) (
 		return file.Decls[i].End() > commentPos
 	})
 
+	// A comment that trails a top-level declaration lies after that declaration's end, so the
+	// search above lands on the following declaration (if any): it is inline with the previous
+	// declaration when that one ends on the comment's line
+	if idx > 0 && (idx >= len(file.Decls) || commentPos < file.Decls[idx].Pos()) {
+		if fset.Position(file.Decls[idx-1].End()).Line == commentLine {
+			if fileContent := fset.File(commentPos); fileContent != nil {
+				return fileContent.LineStart(commentLine), comment.End(), true
+			}
+		}
+	}
+
 	// If no declaration found, not inline
 	if idx >= len(file.Decls) {
 		return 0, 0, false
